@@ -56,9 +56,6 @@ func init() {
 			}
 			for i := 0; i < n; i++ {
 				c := UCase{Cfg: genUCfg(r), Doc: genUDoc(r, 1+i*3/n)}
-				if r.Chance(1, 25) {
-					c.Cfg.Defs[0].Kind = "" // a definition with the empty kind (K11 when it is registered)
-				}
 				if len(c.Cfg.Reg) > 0 {
 					c.Doc.Kind = c.Cfg.Defs[Pick(r, c.Cfg.Reg)].Kind
 				}
